@@ -238,6 +238,13 @@ func (f *RunningEventFilter) onReorg(writer db.KeyValueWriter) error {
 		return err
 	}
 
+	// A snapshot persisted at shutdown may cover the block being reverted. Drop it with the
+	// revert, so that a later start rebuilds the window from the canonical headers instead of
+	// resuming a snapshot that still carries the replaced block's bloom bits.
+	if err := writer.Delete(db.RunningEventFilter.Key()); err != nil {
+		return fmt.Errorf("deleting persisted running event filter: %w", err)
+	}
+
 	currRangeStart := f.inner.FromBlock()
 	curBlock := f.next - 1
 	// Falls into previous filter's range
